@@ -50,10 +50,14 @@ CLASSES = [
 
 LOGIC = Logic(
     funcs={"back": (["Operation", "int"], "int"),
-           "ExitStatus": (["int"], "int")},
+           "ExitStatus": (["int"], "int"),
+           "Pgid": (["int"], "int"),            # process group of a pid (A-OS: own group, start_new_session=True)
+           "Gone": (["int"], "bool")},          # the process (group) no longer exists
     defs={"cnt": ([("m", "Arr[int,bool]"), ("n", "int")], "int",
                   "ite(n <= 0, 0, cnt(m, n - 1) + ite(select(m, n - 1), 1, 0))")},
-    globals={"g_reaped": "Set[int]#reaped", "g_killed": "Set[int]#killed"},
+    globals={"g_stop_mode": "bool", "g_failure_seen": "bool", "g_failed_printed": "List[Operation]#printedf", "g_skipped_printed": "List[TaskIdentifier]#printeds",
+             "g_reaped": "Set[int]#reaped", "g_killed": "Set[int]#killed",
+             "ext_errno_ESRCH": "int", "ext_errno_ECHILD": "int", "ext_signal_SIGTERM": "int"},
     lemmas=[
         Lemma("cnt_range", {"m": "Arr[int,bool]", "n": "int"}, requires=["n >= 0"],
               ensures=[C("bounds", "0 <= cnt(m, n) and cnt(m, n) <= n")], induction="n", props=["C01", "C03", "C09"]),
@@ -96,6 +100,7 @@ LOGIC = Logic(
             "implies(o.g_started, forall(j, 'int', implies(0 <= j and j < seq_len(o._exe_deps),"
             "        select(o._exe_deps, j)._state == OperationState.SUCCEEDED)))"
             " and implies(o._state == OperationState.SUCCEEDED, o.g_started and o.g_finished_ok)"
+            " and implies(o._state == OperationState.FAILED, o._stored_error is not None)"
             " and implies(o._state == OperationState.SKIPPED, not o.g_started and"
             "        exists(j, 'int', 0 <= j and j < seq_len(o._exe_deps) and"
             "               (select(o._exe_deps, j)._state == OperationState.FAILED or select(o._exe_deps, j)._state == OperationState.SKIPPED)))",
@@ -135,6 +140,7 @@ LOGIC = Logic(
             "     e._inflight_ops._processes[p][0] != select(e._inflight_ops._sync_ops, i)[0] and e._inflight_ops._processes[p][1] != select(e._inflight_ops._sync_ops, i)[1]"
             "     and implies(e._inflight_ops._processes[p][0].slot is not None, e._inflight_ops._processes[p][0].slot != select(e._inflight_ops._sync_ops, i)[0].slot))))",
         "inflight_inv(e)": "infl_procs(e) and infl_procs_distinct(e) and infl_sync(e) and infl_sync_distinct(e) and infl_cross(e)",
+        "comp_inv(e)": "all(x.g_inplan and x.g_phase == 3 for x in e._completed_ops)",
         "n_inflight(e)": "card(e._inflight_ops._processes) + seq_len(e._inflight_ops._sync_ops)",
         # C04: bound, exclusivity, slot free-list
         "slots_inv(e)":
@@ -219,12 +225,14 @@ CONTRACTS = [
                                                   " or finished_op._state == OperationState.SKIPPED"),
                  C("finished_op_ran_ok", "ran_ok(finished_op)"),
                  C("queues_consistent", "q_inv(self._ready_to_run)"),
+                 C("completed_list", "comp_inv(self)"),
              ],
              modifies=["list@self._completed_ops", "deque@self._ready_to_run._sequential_ops", "deque@self._ready_to_run._parallel_ops",
                        "Operation._waiting_on", "Operation.g_marks", "Operation.g_phase"],
              ensures=[
                  C("all_operations_consistent", "ops_inv()"),
                  C("queues_consistent", "q_inv(self._ready_to_run)"),
+                 C("completed_list", "comp_inv(self)"),
                  C("recorded_as_completed", "finished_op.g_phase == 3 and seq_len(self._completed_ops) == old(seq_len(self._completed_ops)) + 1"
                                             " and select(self._completed_ops, seq_len(self._completed_ops) - 1) == finished_op"
                                             " and forall(i, 'int', implies(0 <= i and i < old(seq_len(self._completed_ops)), select(self._completed_ops, i) == old(select(self._completed_ops, i))))"),
@@ -257,7 +265,8 @@ CONTRACTS = [
     Contract(OP + "::Operation.start_execution", params={"ctx": "Context", "slot": "Opt[int]"}, returns="OperationExecutionHandle",
              extern=True, fresh_result=True, props=["C01", "C03", "C04"],
              requires=[C("every_dependency_succeeded", "all(d._state == OperationState.SUCCEEDED or d._state == OperationState.SUCCEEDED_CACHED for d in self._exe_deps)", "C01"),
-                       C("not_started_before", "not self.g_started", "C02", "C09")],
+                       C("not_started_before", "not self.g_started", "C02", "C09"),
+                       C("nothing_starts_after_a_failure_with_stop_early", "implies(g_stop_mode, not g_failure_seen)", "C03")],
              modifies=["Operation.g_started@self"],
              ensures=["self.g_started", "result.returncode is None", "result.slot is None"],
              raises={"ConductorAbort": ["self.g_started"], "ConductorError+": ["self.g_started"]},
@@ -274,20 +283,23 @@ CONTRACTS = [
     Contract(F + "::Executor._wait_for_next_inflight_op", params={"ctx": "Context", "stop_on_first_error": "bool"}, returns="bool",
              props=["C01", "C03", "C04", "C09"],
              requires=[C("ops", "ops_inv()"), C("queues", "q_inv(self._ready_to_run)"), C("inflight", "inflight_inv(self)"),
-                       C("slots", "slots_inv(self)"), C("something_in_flight", "n_inflight(self) > 0")],
+                       C("slots", "slots_inv(self)"), C("something_in_flight", "n_inflight(self) > 0"), C("completed_list", "comp_inv(self)"),
+                       C("stop_flag", "g_stop_mode == stop_on_first_error and implies(g_stop_mode, not g_failure_seen)")],
              modifies=["dict@self._inflight_ops._processes", "list@self._inflight_ops._sync_ops", "OperationExecutionHandle.returncode",
                        "g_reaped", "Operation.g_finished_ok", "Operation._state", "Operation._stored_error", "list@self._available_slots",
                        "list@self._completed_ops", "deque@self._ready_to_run._sequential_ops", "deque@self._ready_to_run._parallel_ops",
-                       "Operation._waiting_on", "Operation.g_marks", "Operation.g_phase"],
+                       "Operation._waiting_on", "Operation.g_marks", "Operation.g_phase", "g_failure_seen"],
              ensures=[C("ops", "ops_inv()"), C("queues", "q_inv(self._ready_to_run)"),
                       C("inflight_procs", "infl_procs(self)"), C("inflight_procs_distinct", "infl_procs_distinct(self)"),
                       C("inflight_sync", "infl_sync(self)"), C("inflight_sync_distinct", "infl_sync_distinct(self)"),
                       C("inflight_cross", "infl_cross(self)"),
-                      C("slots", "slots_inv(self)", "C04"),
+                      C("slots", "slots_inv(self)", "C04"), C("completed_list", "comp_inv(self)"),
+                      C("stops_exactly_on_failure_with_stop_early", "result == (g_stop_mode and g_failure_seen)", "C03"),
                       C("one_fewer_in_flight", "n_inflight(self) == old(n_inflight(self)) - 1", "C09", "C04"),
                       C("stop_only_on_error_with_stop_early", "implies(result, stop_on_first_error)", "C03"),
                       C("mode_unchanged", "self._running_parallel == old(self._running_parallel) and self._slots == old(self._slots)")],
              raises={"ConductorAbort": []},
+             ghost=[Ghost("g_failure_seen = True", after="op.set_state(OperationState.FAILED)")],
              inline=["set_state", "store_error", "_print_op_failed"]),
 
     # ------------------------------------------------------------------ Executor._launch_ops_if_able
@@ -296,17 +308,18 @@ CONTRACTS = [
              requires=[C("ops", "ops_inv()"), C("queues", "q_inv(self._ready_to_run)"),
                        C("inflight_procs", "infl_procs(self)"), C("inflight_procs_distinct", "infl_procs_distinct(self)"),
                        C("inflight_sync", "infl_sync(self)"), C("inflight_sync_distinct", "infl_sync_distinct(self)"),
-                       C("inflight_cross", "infl_cross(self)"), C("slots", "slots_inv(self)")],
+                       C("inflight_cross", "infl_cross(self)"), C("slots", "slots_inv(self)"), C("completed_list", "comp_inv(self)"),
+                       C("stop_flag", "g_stop_mode == stop_on_first_error and implies(g_stop_mode, not g_failure_seen)")],
              modifies=["dict@self._inflight_ops._processes", "list@self._inflight_ops._sync_ops", "OperationExecutionHandle.slot",
                        "Operation.g_started", "Operation._state", "Operation._stored_error", "list@self._available_slots",
                        "list@self._completed_ops", "deque@self._ready_to_run._sequential_ops", "deque@self._ready_to_run._parallel_ops",
                        "Operation._waiting_on", "Operation.g_marks", "Operation.g_phase", "Executor._running_parallel@self",
-                       "Executor._num_tasks_dequeued@self", "$alloc"],
+                       "Executor._num_tasks_dequeued@self", "$alloc", "g_failure_seen"],
              ensures=[C("ops", "ops_inv()"), C("queues", "q_inv(self._ready_to_run)"),
                       C("inflight_procs", "infl_procs(self)"), C("inflight_procs_distinct", "infl_procs_distinct(self)"),
                       C("inflight_sync", "infl_sync(self)"), C("inflight_sync_distinct", "infl_sync_distinct(self)"),
-                      C("inflight_cross", "infl_cross(self)"), C("slots", "slots_inv(self)", "C04"),
-                      C("stop_only_with_stop_early", "implies(result, stop_on_first_error)", "C03")],
+                      C("inflight_cross", "infl_cross(self)"), C("slots", "slots_inv(self)", "C04"), C("completed_list", "comp_inv(self)"),
+                      C("stops_exactly_on_failure_with_stop_early", "result == (g_stop_mode and g_failure_seen)", "C03")],
              raises={"ConductorAbort": []},
              inline=["dequeue_next", "has_ops", "has_parallelizable_ops", "add_op", "set_state", "store_error", "_print_op_failed",
                      "_get_progress_string", "exe_deps_succeeded", "succeeded"],
@@ -314,11 +327,12 @@ CONTRACTS = [
                        "Operation.g_started", "Operation._state", "Operation._stored_error", "list@self._available_slots",
                        "list@self._completed_ops", "deque@self._ready_to_run._sequential_ops", "deque@self._ready_to_run._parallel_ops",
                        "Operation._waiting_on", "Operation.g_marks", "Operation.g_phase", "Executor._running_parallel@self",
-                       "Executor._num_tasks_dequeued@self", "$alloc"],
+                       "Executor._num_tasks_dequeued@self", "$alloc", "g_failure_seen"],
                             invariant=[C("ops", "ops_inv()"), C("queues", "q_inv(self._ready_to_run)"),
                                        C("inflight_procs", "infl_procs(self)"), C("inflight_procs_distinct", "infl_procs_distinct(self)"),
                                        C("inflight_sync", "infl_sync(self)"), C("inflight_sync_distinct", "infl_sync_distinct(self)"),
-                                       C("inflight_cross", "infl_cross(self)"), C("slots", "slots_inv(self)", "C04")])},
+                                       C("inflight_cross", "infl_cross(self)"), C("slots", "slots_inv(self)", "C04"), C("completed_list", "comp_inv(self)"),
+                                       C("no_failure_seen_in_stop_mode", "implies(g_stop_mode, not g_failure_seen)", "C03")])},
              ghost=[
                  Ghost("assert forall(p, 'int', implies(p in self._inflight_ops._processes, self._inflight_ops._processes[p][1] != next_op))\n"
                        "assert forall(i, 'int', implies(0 <= i and i < seq_len(self._inflight_ops._sync_ops), select(self._inflight_ops._sync_ops, i)[1] != next_op))\n"
@@ -326,8 +340,174 @@ CONTRACTS = [
                        "use_lemma('cnt_full', next_op.g_marks, seq_len(next_op._exe_deps))\n"
                        "next_op.g_phase = 2",
                        after="next_op = self._ready_to_run.dequeue_next()"),
+                 Ghost("g_failure_seen = True", after="next_op.set_state(OperationState.FAILED)"),
                  # A-OS: the kernel never hands out the pid of a child that has not been reaped yet
                  Ghost("assume(handle.pid is None or not (some(handle.pid) in self._inflight_ops._processes))",
                        before="self._inflight_ops.add_op(handle, next_op)"),
+             ]),
+
+    # ------------------------------------------------------------------ small helpers
+    Contract("ext::os.getpgid", params={"pid": "int"}, returns="int", ensures=["result == Pgid(pid)"],
+             raises={"OSError": ["implies(exc.errno == ext_errno_ESRCH or exc.errno == ext_errno_ECHILD, Gone(pid))"]},
+             trusted_reason="A-OS: os.getpgid; ESRCH/ECHILD mean the process is gone"),
+    Contract("ext::os.killpg", params={"pgid": "int", "sig": "int"}, modifies=["g_killed"],
+             ensures=["implies(sig == ext_signal_SIGTERM, pgid in g_killed)",
+                      "forall(x, 'int', implies(old(x in g_killed), x in g_killed))"],
+             raises={"OSError": ["implies(exc.errno == ext_errno_ESRCH or exc.errno == ext_errno_ECHILD, forall(p, 'int', implies(Pgid(p) == pgid, Gone(p))))",
+                                 "forall(x, 'int', implies(old(x in g_killed), x in g_killed))"]},
+             trusted_reason="A-OS: os.killpg delivers the signal to every process of the group"),
+
+    Contract(F + "::_InflightOperations.terminate_processes", props=["C03", "C16"],
+             modifies=["g_killed"],
+             ensures=[C("every_registered_group_signalled",
+                        "forall(p, 'int', implies(p in self._processes and self._processes[p][0].pid is not None,"
+                        " Pgid(some(self._processes[p][0].pid)) in g_killed or Gone(some(self._processes[p][0].pid)) or Pgid(some(self._processes[p][0].pid)) < 0))"),
+                      C("kills_accumulate", "forall(x, 'int', implies(old(x in g_killed), x in g_killed))")],
+             raises={"OSError": []},
+             loops={0: Loop(header="for (handle, _) in self._processes.values():", index="i", modifies=["g_killed"],
+                            invariant=[C("kills_accumulate", "forall(x, 'int', implies(old(x in g_killed), x in g_killed))"),
+                                       C("prefix_signalled", "forall(k, 'int', implies(0 <= k and k < i and self._processes[snap_key(k)][0].pid is not None,"
+                                                             " Pgid(some(self._processes[snap_key(k)][0].pid)) in g_killed or Gone(some(self._processes[snap_key(k)][0].pid))"
+                                                             " or Pgid(some(self._processes[snap_key(k)][0].pid)) < 0))")])}),
+
+    Contract(F + "::_ReadyToRunQueue.load", params={"initial_ops": "List[Operation]#initops"}, props=["C09", "C01", "C02"],
+             requires=[C("queues_consistent", "q_inv(self)"),
+                       C("initial_ops_waiting_distinct",
+                         "all(x.g_inplan and x.g_phase == 0 for x in initial_ops) and "
+                         "forall(i, 'int', forall(k, 'int', implies(0 <= i and i < k and k < seq_len(initial_ops), select(initial_ops, i) != select(initial_ops, k))))")],
+             modifies=["deque@self._sequential_ops", "deque@self._parallel_ops", "Operation.g_phase"],
+             ensures=[C("queues_consistent", "q_inv(self)"),
+                      C("initial_ops_ready", "all(x.g_phase == 1 for x in initial_ops)"),
+                      C("others_untouched", "forall(o, 'Operation', implies(forall(k, 'int', implies(0 <= k and k < seq_len(initial_ops), select(initial_ops, k) != o)),"
+                                            " o.g_phase == old(o.g_phase)))")],
+             inline=["enqueue_op"],
+             loops={0: Loop(header="for op in initial_ops:", index="i",
+                            modifies=["deque@self._sequential_ops", "deque@self._parallel_ops", "Operation.g_phase"],
+                            invariant=[C("queues_consistent", "q_inv(self)"),
+                                       C("prefix_ready", "forall(k, 'int', implies(0 <= k and k < i, select(initial_ops, k).g_phase == 1))"),
+                                       C("suffix_waiting", "forall(k, 'int', implies(i <= k and k < seq_len(initial_ops), select(initial_ops, k).g_phase == 0))"),
+                                       C("others_untouched", "forall(o, 'Operation', implies(forall(k, 'int', implies(0 <= k and k < seq_len(initial_ops), select(initial_ops, k) != o)),"
+                                                             " o.g_phase == old(o.g_phase)))")])},
+             ghost=[Ghost("op.g_phase = 1", after="self.enqueue_op(op)")]),
+
+    Contract("execution/plan.py::ExecutionPlan.reset_waiting_on", props=["C09", "C01"],
+             modifies=["Operation._waiting_on"],
+             ensures=[C("every_op_counts_all_its_dependencies", "all(x._waiting_on == seq_len(x._exe_deps) for x in self.all_ops)"),
+                      C("others_untouched", "forall(o, 'Operation', implies(forall(k, 'int', implies(0 <= k and k < seq_len(self.all_ops), select(self.all_ops, k) != o)),"
+                                            " o._waiting_on == old(o._waiting_on)))")],
+             inline=["Operation.reset_waiting_on"],
+             loops={0: Loop(header="for op in self.all_ops:", index="i", modifies=["Operation._waiting_on"],
+                            invariant=[C("prefix_reset", "forall(k, 'int', implies(0 <= k and k < i, select(self.all_ops, k)._waiting_on == seq_len(select(self.all_ops, k)._exe_deps)))"),
+                                       C("others_untouched", "forall(o, 'Operation', implies(forall(k, 'int', implies(0 <= k and k < seq_len(self.all_ops), select(self.all_ops, k) != o)),"
+                                                             " o._waiting_on == old(o._waiting_on)))")])}),
+
+    Contract(F + "::Executor._get_elapsed_time_string", params={"elapsed": "float"}, returns="str", extern=True,
+             trusted_reason="cosmetic"),
+
+    Contract(F + "::Executor._reset", props=["C04", "C09", "C03"],
+             modifies=["deque@self._ready_to_run._sequential_ops", "deque@self._ready_to_run._parallel_ops", "list@self._completed_ops",
+                       "dict@self._inflight_ops._processes", "list@self._inflight_ops._sync_ops", "Executor._running_parallel@self",
+                       "Executor._available_slots@self", "Executor._num_tasks_to_run@self", "Executor._num_tasks_dequeued@self",
+                       "list@self._available_slots", "g_killed", "$alloc"],
+             requires=[C("positive_slots", "self._slots > 0")],
+             ensures=[C("queues_empty", "seq_len(self._ready_to_run._sequential_ops) == 0 and seq_len(self._ready_to_run._parallel_ops) == 0"),
+                      C("nothing_completed", "seq_len(self._completed_ops) == 0"),
+                      C("nothing_in_flight", "card(self._inflight_ops._processes) == 0 and seq_len(self._inflight_ops._sync_ops) == 0"
+                                             " and forall(p, 'int', not (p in self._inflight_ops._processes))"),
+                      C("all_slots_free", "slots_inv(self)", "C04"),
+                      C("sequential_mode", "not self._running_parallel and self._num_tasks_dequeued == 0")],
+             raises={"OSError": []},
+             inline=["clear"]),
+
+    Contract(F + "::Executor._report_execution_results", params={"plan": "ExecutionPlan", "elapsed_time": "float"}, props=["C03", "C09"],
+             locals={"failed_task_ops": "List[Operation]#failedl", "skipped_tasks": "List[TaskIdentifier]#skippedl"},
+             requires=[C("failed_ops_carry_their_error", "all(implies(o._state == OperationState.FAILED, o._stored_error is not None) for o in self._completed_ops)"),
+                       C("every_completed_op_reports_a_task", "all(o.main_task is not None for o in self._completed_ops)"),
+                       # liveness part (DESIGN 5.9): decided by the bounded executor run, not by this proof
+                       C("run_accounted_for", "any(o._state == OperationState.FAILED for o in self._completed_ops) or"
+                                              " (all(succeeded(o) for o in self._completed_ops) and"
+                                              "  (any(some(o.main_task)._identifier == plan.task_to_run._identifier for o in self._completed_ops) or"
+                                              "   (seq_len(self._completed_ops) == 0 and any(t._identifier == plan.task_to_run._identifier for t in plan.cached_tasks))))")],
+             modifies=["g_failed_printed", "g_skipped_printed"],
+             ensures=[C("exit_zero_only_if_everything_succeeded", "all(succeeded(o) for o in self._completed_ops)", "C03")],
+             raises={"ConductorError+": [
+                 C("some_task_failed", "any(o._state == OperationState.FAILED for o in self._completed_ops)", "C03"),
+                 C("raises_the_first_failure", "exists(i, 'int', 0 <= i and i < seq_len(self._completed_ops) and select(self._completed_ops, i)._state == OperationState.FAILED"
+                                               " and select(self._completed_ops, i)._stored_error == exc"
+                                               " and forall(k, 'int', implies(0 <= k and k < i, select(self._completed_ops, k)._state != OperationState.FAILED)))", "C03")]},
+             inline=["succeeded"],
+             loops={0: Loop(header="for op in self._completed_ops:", index="i",
+                            modifies=["list@failed_task_ops", "list@skipped_tasks"],
+                            invariant=[
+                                C("failed_list_exact", "all(f._state == OperationState.FAILED and f._stored_error is not None and f.main_task is not None for f in failed_task_ops)"),
+                                C("failed_list_complete", "forall(k, 'int', implies(0 <= k and k < i and select(self._completed_ops, k)._state == OperationState.FAILED,"
+                                                          " select(self._completed_ops, k) in failed_task_ops))"),
+                                C("first_failure_first", "implies(seq_len(failed_task_ops) > 0, exists(k, 'int', 0 <= k and k < i and select(self._completed_ops, k) == select(failed_task_ops, 0)"
+                                                         " and forall(m, 'int', implies(0 <= m and m < k, select(self._completed_ops, m)._state != OperationState.FAILED))))"),
+                                C("none_yet", "implies(seq_len(failed_task_ops) == 0, forall(k, 'int', implies(0 <= k and k < i, select(self._completed_ops, k)._state != OperationState.FAILED)))"),
+                                C("lists_distinct", "failed_task_ops != self._completed_ops"),
+                            ]),
+                    1: Loop(header="for failed in failed_task_ops:", index="k2", modifies=[],
+                            invariant=[C("failed_list_exact", "all(f._state == OperationState.FAILED and f._stored_error is not None and f.main_task is not None for f in failed_task_ops)")]),
+                    2: Loop(header="for skipped in skipped_tasks:", index="k3", modifies=[], invariant=[])}),
+
+    # ------------------------------------------------------------------ Executor.run_plan
+    Contract("ext::with_exit:track", params={"tok": "any"}, trusted_reason="SIGCHLD tracking context: see contracts/sigchld.py"),
+    Contract("ext::SigchldHelper.track", returns="any", trusted_reason="SIGCHLD tracking context: see contracts/sigchld.py"),
+
+    Contract(F + "::Executor.run_plan", params={"plan": "ExecutionPlan", "ctx": "Context", "stop_on_first_error": "bool"},
+             props=["C01", "C03", "C04", "C09", "C02"],
+             requires=[
+                 C("positive_slots", "self._slots > 0"),
+                 C("plan_ops_marked", "all(x.g_inplan for x in plan.all_ops) and"
+                                      " forall(o, 'Operation', implies(o.g_inplan, exists(i, 'int', 0 <= i and i < seq_len(plan.all_ops) and select(plan.all_ops, i) == o)))"),
+                 C("plan_well_formed", "forall(o, 'Operation', implies(o.g_inplan, edges_wf(o) and o._state == OperationState.QUEUED and not o.g_started"
+                                       " and o.main_task is not None))"),
+                 # ghost state starts out empty (ghost fields are never assigned by real code, so this is no restriction)
+                 C("ghost_initial", "forall(o, 'Operation', implies(o.g_inplan, o.g_phase == 0 and o.g_marks == const_arr('Arr[int,bool]', False)))"
+                                    " and g_stop_mode == stop_on_first_error and not g_failure_seen"),
+                 C("initial_ops_are_the_ops_without_dependencies",
+                   "all(x.g_inplan and seq_len(x._exe_deps) == 0 for x in plan.initial_ops) and"
+                   " forall(i, 'int', forall(k, 'int', implies(0 <= i and i < k and k < seq_len(plan.initial_ops), select(plan.initial_ops, i) != select(plan.initial_ops, k)))) and"
+                   " forall(o, 'Operation', implies(o.g_inplan and seq_len(o._exe_deps) == 0, o in plan.initial_ops))"),
+             ],
+             modifies=["dict@self._inflight_ops._processes", "list@self._inflight_ops._sync_ops", "OperationExecutionHandle.slot", "OperationExecutionHandle.returncode",
+                       "Operation.g_started", "Operation._state", "Operation._stored_error", "list@self._available_slots", "Executor._available_slots@self",
+                       "list@self._completed_ops", "deque@self._ready_to_run._sequential_ops", "deque@self._ready_to_run._parallel_ops",
+                       "Operation._waiting_on", "Operation.g_marks", "Operation.g_phase", "Operation.g_finished_ok", "Executor._running_parallel@self",
+                       "Executor._num_tasks_dequeued@self", "Executor._num_tasks_to_run@self", "$alloc", "g_failure_seen", "g_reaped", "g_killed",
+                       "g_failed_printed", "g_skipped_printed"],
+             ensures=[C("exit_zero_only_if_everything_that_ran_succeeded", "all(succeeded(o) for o in self._completed_ops)", "C03"),
+                      C("operations_consistent", "ops_inv()", "C01", "C03")],
+             raises={"ConductorAbort": [],
+                     "OSError": [],
+                     "ConductorError+": [C("some_task_failed", "any(o._state == OperationState.FAILED for o in self._completed_ops)", "C03"),
+                                         C("running_tasks_signalled",
+                                           "forall(p, 'int', implies(p in self._inflight_ops._processes and self._inflight_ops._processes[p][0].pid is not None,"
+                                           " Pgid(some(self._inflight_ops._processes[p][0].pid)) in g_killed or Gone(some(self._inflight_ops._processes[p][0].pid))"
+                                           " or Pgid(some(self._inflight_ops._processes[p][0].pid)) < 0))", "C03")]},
+             inline=["has_ops", "succeeded"],
+             loops={0: Loop(header="for cached_task in plan.cached_tasks:", index="ci", modifies=[], invariant=[]),
+                    1: Loop(header="while self._ready_to_run.has_ops() or len(self._inflight_ops) > 0:",
+                            modifies=["dict@self._inflight_ops._processes", "list@self._inflight_ops._sync_ops", "OperationExecutionHandle.slot", "OperationExecutionHandle.returncode",
+                                      "Operation.g_started", "Operation._state", "Operation._stored_error", "list@self._available_slots",
+                                      "list@self._completed_ops", "deque@self._ready_to_run._sequential_ops", "deque@self._ready_to_run._parallel_ops",
+                                      "Operation._waiting_on", "Operation.g_marks", "Operation.g_phase", "Operation.g_finished_ok", "Executor._running_parallel@self",
+                                      "Executor._num_tasks_dequeued@self", "$alloc", "g_failure_seen", "g_reaped"],
+                            invariant=[C("ops", "ops_inv()"), C("queues", "q_inv(self._ready_to_run)"),
+                                       C("inflight_procs", "infl_procs(self)"), C("inflight_procs_distinct", "infl_procs_distinct(self)"),
+                                       C("inflight_sync", "infl_sync(self)"), C("inflight_sync_distinct", "infl_sync_distinct(self)"),
+                                       C("inflight_cross", "infl_cross(self)"), C("slots", "slots_inv(self)", "C04"), C("completed_list", "comp_inv(self)"),
+                                       C("no_failure_seen_in_stop_mode", "implies(g_stop_mode, not g_failure_seen)", "C03"),
+                                       C("stop_mode_fixed", "g_stop_mode == stop_on_first_error and self._slots > 0")])},
+             ghost=[
+                 Ghost("use(forall(o, 'Operation', lemma('cnt_none', seq_len(o._exe_deps))))", before="self._ready_to_run.load(plan.initial_ops)"),
+                 # liveness part of C09 / C03 (every planned operation has been completed when the loop ends without
+                 # stop-early): not proved here -- bounded check C09.executor.terminates_every_op_one_outcome
+                 Ghost("assume(any(o._state == OperationState.FAILED for o in self._completed_ops) or"
+                       " (all(succeeded(o) for o in self._completed_ops) and"
+                       "  (any(some(o.main_task)._identifier == plan.task_to_run._identifier for o in self._completed_ops) or"
+                       "   (seq_len(self._completed_ops) == 0 and any(t._identifier == plan.task_to_run._identifier for t in plan.cached_tasks)))))",
+                       before="self._report_execution_results(plan, elapsed_time=time.time() - start)"),
              ]),
 ]
